@@ -59,7 +59,7 @@ def traces_for(key, make, classes, levels, seqs, prng):
     return traces
 
 
-def build_traces(ctx, nprog, levels=("2",), seqs=0, nir=None, npat=0):
+def build_traces(ctx, nprog, levels=("2",), seqs=0, nir=None, npat=0, pat_slice=None):
     """Generate programs (C through c_to_ir, and IR built directly by harness/irgen.py), run single passes /
     pipelines / random pass sequences on fresh copies, return the corpus with all traces."""
     import random
@@ -99,6 +99,8 @@ def build_traces(ctx, nprog, levels=("2",), seqs=0, nir=None, npat=0):
             keep = [x for x in pats if x[0].split(":")[1] in ("cf", "mem", "tail")]
             rest = [x for x in pats if x[0].split(":")[1] not in ("cf", "mem", "tail")]
             pats = keep + random.Random(rng.randrange(1 << 30)).sample(rest, max(0, min(len(rest), npat - len(keep))))
+        if pat_slice:  # thorough tier: the patterns are spread over several rounds (memory)
+            pats = pats[pat_slice[0]::pat_slice[1]]
         for key, make, fn, ptys in pats:
             prng = random.Random(sum(ord(ch) * (k + 1) for k, ch in enumerate(key)))
             try:
@@ -240,11 +242,21 @@ class Engine:
         ctx.assume("the IR projection (harness/project_ir.py) reports the module faithfully")
         ctx.assume("IR.tla is the semantics of ppci IR: wrap-around integers, truncating / and %, arithmetic >> on signed types")
         levels = ("2",) if ctx.tier == "quick" else ("1", "2", "s")
-        corpus = build_traces(ctx, nprog, levels=levels, seqs=1 if ctx.tier == "quick" else 3,
-                              npat=400 if ctx.tier == "quick" else 100000)
-        cases = ir_cases(ctx, corpus)
-        for c in cases[:3]:
-            ctx.sample({"id": c["id"], "snapshots": c["labels"][:6], "args": c["vecs"][:2]})
-        ctx.cov["programs"] = len(corpus)
-        ctx.cov["traces_validated_against_impl"] += sum(len(c["argv"]) for c in cases)
-        judge_ir(ctx, cases, "C02")
+        if ctx.tier == "quick":
+            rounds = [dict(nprog=nprog, seqs=1, npat=400)]
+        else:
+            # the thorough corpus is built and judged in rounds: all snapshots of all traces at once need tens of GB
+            nr = 8
+            rounds = [dict(nprog=nprog // nr, seqs=3, npat=100000, pat_slice=(k, nr)) for k in range(nr)]
+        ctx.cov["programs"] = 0
+        for k, kw in enumerate(rounds):
+            corpus = build_traces(ctx, levels=levels, **kw)
+            cases = ir_cases(ctx, corpus)
+            if k == 0:
+                for c in cases[:3]:
+                    ctx.sample({"id": c["id"], "snapshots": c["labels"][:6], "args": c["vecs"][:2]})
+            ctx.cov["programs"] += len(corpus)
+            ctx.cov["traces_validated_against_impl"] += sum(len(c["argv"]) for c in cases)
+            del corpus
+            judge_ir(ctx, cases, "C02")
+            del cases
